@@ -43,13 +43,32 @@ type World struct {
 	nCGNodes  int
 	nPackages int
 	callersOf map[*ssa.Function][]*callgraph.Edge
+	NormNotes []string
+}
+
+var noNormalise, dumpNormalised bool
+
+func anyModuleErrors(roots []*packages.Package) bool { return firstModuleError(roots) != "" }
+
+func firstModuleError(roots []*packages.Package) string {
+	msg := ""
+	packages.Visit(roots, nil, func(p *packages.Package) {
+		if strings.HasPrefix(p.PkgPath, libPath) || p.PkgPath == fbPath {
+			for _, e := range p.Errors {
+				if msg == "" {
+					msg = e.Error()
+				}
+			}
+		}
+	})
+	return msg
 }
 
 type LoadConfig struct {
-	Dir   string
-	GOOS  string
+	Dir    string
+	GOOS   string
 	GOARCH string
-	Tags  string
+	Tags   string
 }
 
 func loadWorld(cfg LoadConfig) (*World, error) {
@@ -73,7 +92,42 @@ func loadWorld(cfg LoadConfig) (*World, error) {
 	if err != nil {
 		return nil, fmt.Errorf("load: %v", err)
 	}
-	w := &World{Dir: cfg.Dir, Env: env, All: map[string]*packages.Package{}, Roots: roots}
+	var normNotes []string
+	var dead map[string]bool
+	if !noNormalise && !anyModuleErrors(roots) {
+		if overlay, rep := normalise(roots, loadInventory()); overlay != nil {
+			pc2 := *pc
+			pc2.Overlay = overlay
+			roots2, err2 := packages.Load(&pc2, "./...")
+			if err2 == nil && !anyModuleErrors(roots2) {
+				roots = roots2
+				normNotes = rep.notes()
+				dead = rep.Dead
+				if dumpNormalised {
+					for name, b := range overlay {
+						fmt.Printf("==== %s (normalised)\n%s\n", name, b)
+					}
+				}
+			} else {
+				msg := ""
+				if err2 != nil {
+					msg = err2.Error()
+				} else {
+					msg = firstModuleError(roots2)
+				}
+				rep.Err = "the expanded source does not type-check: " + msg
+				normNotes = rep.notes()
+				if dumpNormalised {
+					for name, b := range overlay {
+						fmt.Printf("==== %s (normalised, REJECTED: %s)\n%s\n", name, msg, b)
+					}
+				}
+			}
+		} else {
+			normNotes = rep.notes()
+		}
+	}
+	w := &World{Dir: cfg.Dir, Env: env, All: map[string]*packages.Package{}, Roots: roots, NormNotes: normNotes}
 	var errs []string
 	packages.Visit(roots, nil, func(p *packages.Package) {
 		w.All[p.PkgPath] = p
@@ -108,9 +162,23 @@ func loadWorld(cfg LoadConfig) (*World, error) {
 	}
 	w.allFuncs = ssautil.AllFunctions(prog)
 	w.CG = vta.CallGraph(w.allFuncs, cha.CallGraph(prog))
+	if len(dead) > 0 {
+		// expanded helpers nothing refers to any more are not part of the analysed program
+		for f := range w.allFuncs {
+			if w.inModule(f) && dead[ssaDeclKey(f)] {
+				if n := w.CG.Nodes[f]; n != nil {
+					w.CG.DeleteNode(n)
+				}
+				delete(w.allFuncs, f)
+			}
+		}
+	}
 	w.nCGNodes = len(w.CG.Nodes)
 	for f := range w.allFuncs {
 		if w.inModule(f) {
+			if len(dead) > 0 && dead[ssaDeclKey(f)] {
+				continue
+			}
 			w.modFuncs = append(w.modFuncs, f)
 		}
 	}
@@ -361,4 +429,27 @@ func funcDecl(p *packages.Package, name string) *ast.FuncDecl {
 		}
 	}
 	return nil
+}
+
+// ssaDeclKey: the declKey of the declared function f (or of the function a literal is nested in).
+func ssaDeclKey(f *ssa.Function) string {
+	for f.Parent() != nil {
+		f = f.Parent()
+	}
+	fo, ok := f.Object().(*types.Func)
+	if !ok || fo.Pkg() == nil {
+		return ""
+	}
+	sig := fo.Type().(*types.Signature)
+	if sig.Recv() == nil {
+		return fo.Pkg().Path() + "." + fo.Name()
+	}
+	t := sig.Recv().Type()
+	if p, ok := t.(*types.Pointer); ok {
+		t = p.Elem()
+	}
+	if n, ok := t.(*types.Named); ok {
+		return fo.Pkg().Path() + "." + n.Obj().Name() + "." + fo.Name()
+	}
+	return ""
 }
